@@ -326,10 +326,9 @@ class GroupedType(BaseDataType):
 
 
         if avp_key in self.__dict__:
-            index = 0
-            for key in self.__dict__.keys():
-                if avp_key in key:
-                    index += 1
+            index = 1
+            while f"{avp_key}__{index}" in self.__dict__:
+                index += 1
             avp_key = f"{avp_key}__{index}"
 
         self._avps.append(avp)
